@@ -29,6 +29,11 @@ const prelude = `(declare-datatypes ((Str 0)) (((mk-str (s-base (Array Int Int))
 (define-fun sid ((s Str)) Int (strord s))
 (define-fun streq ((a Str) (b Str)) Bool (= (strord a) (strord b)))
 (declare-fun pow2 (Int) Int)
+(declare-fun strcat (Str Str) Str)
+(declare-fun strsuffix (Str Str) Bool)
+(declare-fun strprefix (Str Str) Bool)
+(declare-fun strindex (Str Str) Int)
+(declare-fun splitlast (Str Str) Str)
 `
 
 func mangle(s string) string {
